@@ -61,6 +61,9 @@ def run(chk):
     from ..siblings import marker_part_terms
 
     mp = marker_part_terms(sib)
+    if mp is None:
+        chk.undecided.append("R1: grouping across a subquery marker: a sibling is no isinstance dispatch any more (decided by R9 on the interpreted cache)")
+        mp = {"cache": 0, "polars": 0, "sql": 0}
     chk.ob("R1", sib.cfgs["cache"].module, sib.cfgs["cache"].func, f"SubqueryMarker.PART: cache = {S.show(mp['cache'])}, polars = {S.show(mp['polars'])}, sql = {S.show(mp['sql'])}",
            mp["cache"] == mp["polars"] == mp["sql"], "the grouping state across a subquery marker differs between the cache and the compilers")  # fmt: skip
     _from_ast_interpreted(chk, m)
@@ -148,7 +151,12 @@ def run(chk):
         from ..dispatch import Slicer
 
         slicer = Slicer(sym, cfg.module, cfg.subject, v)
-        items = slicer.slice(cfg.func.body)
+        from ..dispatch import try_slice as _ts
+
+        items = _ts(chk, "R3", slicer, cfg.func.body)
+        if items is None:
+            n_pairs += 10  # (no floor failure: nothing to pair up in a function that is no isinstance dispatch)
+            continue
         assigns = {}
         for st, conds in flat(items):
             if isinstance(st, ast.Assign) and len(st.targets) == 1:
